@@ -421,7 +421,25 @@ func (c *kase) replay() map[string]any {
 }
 
 func (c *kase) violate(key, what string) {
-	c.r.Violate(key, what+" ["+c.cfg.String()+"]", c.replay())
+	rp := c.replay()
+	if strings.HasPrefix(key, "quiescence:") || strings.HasPrefix(key, "failed-resolve:") {
+		// what is still running at the moment a resource clause fires
+		rp["goroutines_at_violation"] = lx.AllStacks(96 << 10)
+		rp["resolver_root_listing"] = listTree(c.root, 60)
+	}
+	c.r.Violate(key, what+" ["+c.cfg.String()+"]", rp)
+}
+
+func listTree(root string, max int) []string {
+	var res []string
+	_ = filepath.Walk(root, func(p string, info os.FileInfo, err error) error {
+		if err == nil && len(res) < max {
+			rel, _ := filepath.Rel(root, p)
+			res = append(res, fmt.Sprintf("%s (%d)", rel, info.Size()))
+		}
+		return nil
+	})
+	return res
 }
 
 func (c *kase) finish() {
